@@ -2725,6 +2725,9 @@ where
                     self.status = ConnectionStatus::Connected;
                     if packet.session_present() {
                         events.extend(self.send_stored());
+                        if !events.is_empty() {
+                            self.send_post_process(&mut events);
+                        }
                     } else {
                         self.clear_store_related();
                     }
